@@ -4,6 +4,7 @@
 package c02
 
 import (
+	"bytes"
 	"fmt"
 	"testing"
 
@@ -219,6 +220,20 @@ func checkCase(c micCase) evid.Outcome {
 		if err != nil {
 			return evid.Fail("UnmarshalBinary(%x): %v", g.Encode(), err)
 		}
+		if c.F.FCnt&3 == 2 {
+			// a worker that keeps one MACPayload value and decodes the MACPayload part of every frame into it: the
+			// value decoded a frame with all FCtrl flags set and 15 FOpts bytes before
+			wire := g.Encode()
+			var mp lorawan.MACPayload
+			prev := append([]byte{9, 9, 9, 9, 0xff, 0xff, 0xff}, bytes.Repeat([]byte{0x02}, 15)...)
+			if err := mp.UnmarshalBinary(up, append(prev, 0x07, 0xaa)); err != nil {
+				return evid.Fail("harness: the MACPayload used before does not decode: %v", err)
+			}
+			if err := mp.UnmarshalBinary(up, append([]byte{}, wire[1:len(wire)-4]...)); err != nil {
+				return evid.Fail("MACPayload.UnmarshalBinary(%x) into a value used before: %v", wire[1:len(wire)-4], err)
+			}
+			q = lorawan.PHYPayload{MHDR: q.MHDR, MACPayload: &mp, MIC: q.MIC}
+		}
 		q.MACPayload.(*lorawan.MACPayload).FHDR.FCnt = c.F.FCnt
 		var ok bool
 		if up {
@@ -321,6 +336,6 @@ func TestProp(t *testing.T) {
 	r := evid.Begin(t, "C02")
 	defer r.Finish()
 	evid.Rapid(r, t, "data-mic",
-		"rapid: data frames of the four data MTypes (MHDR|MACPayload <= 255 bytes) x random keys (FNwkSIntKey = or != SNwkSIntKey) x MAC version x boundary-biased 32-bit FCnt and ConfFCnt x txDR x txCh; oracle: B0/B1 + own AES-CMAC (RFC 4493 vectors self-checked) over the wire model's serialisation. Checks: Set == reference; Validate true on it, false on single-bit MIC changes; a Set* refused for an edit that is then taken back leaves the MIC the frame carried; a frame received in a loop (value kept while its variable decodes the next frame) validates; ValidateUplinkDataMICF <=> cmacF half; 4-10 single-input perturbations per case (keys, any FCnt bit, +2^16, DevAddr, confirmed/unconfirmed, direction, payload byte, FPort, flags, ACK, ConfFCnt low/high bits, +k*2^16, txDR, txCh, version) and the opposite direction's validator with a shared key, where validation of the original MIC must answer exactly whether the reference MIC is unchanged. Non-trivial: message longer than one AES block and (FCnt >= 2^16 or ACK with ConfFCnt != 0).",
+		"rapid: data frames of the four data MTypes (MHDR|MACPayload <= 255 bytes) x random keys (FNwkSIntKey = or != SNwkSIntKey) x MAC version x boundary-biased 32-bit FCnt and ConfFCnt x txDR x txCh; oracle: B0/B1 + own AES-CMAC (RFC 4493 vectors self-checked) over the wire model's serialisation. Checks: Set == reference; Validate true on it, false on single-bit MIC changes; a Set* refused for an edit that is then taken back leaves the MIC the frame carried; a frame received in a loop (value kept while its variable decodes the next frame) validates, and so does one whose MACPayload part was decoded into a MACPayload value that decoded an all-flags frame with 15 FOpts bytes before; ValidateUplinkDataMICF <=> cmacF half; 4-10 single-input perturbations per case (keys, any FCnt bit, +2^16, DevAddr, confirmed/unconfirmed, direction, payload byte, FPort, flags, ACK, ConfFCnt low/high bits, +k*2^16, txDR, txCh, version) and the opposite direction's validator with a shared key, where validation of the original MIC must answer exactly whether the reference MIC is unchanged. Non-trivial: message longer than one AES block and (FCnt >= 2^16 or ACK with ConfFCnt != 0).",
 		60000, 3000000, genCase, checkCase)
 }
